@@ -10,9 +10,13 @@
    every order is covered) and may rename or decline whenever the code's cost model could do either. *)
 EXTENDS PyScope, Json
 
+\* the same rules without the PEP 709 leak: used to attribute a violation to that rule alone (known finding D18)
+Old == INSTANCE PyScope WITH Pep709 <- FALSE
+
 CONSTANTS N,            \* scopes 1..N
           NNames,       \* 1: the name x only; 2: x and y
           FullY,        \* TRUE: y may be used in every way; FALSE: load / store / walrus only (smaller space)
+          Skeleton,     \* TRUE: only the scope skeleton module > function > function > {comprehension, lambda | comprehension | function} (PEP 709 shapes, N = 5)
           AllOptions    \* TRUE: every option combination; FALSE: rename_locals and rename_globals on, nothing preserved, not tainted
 Names == IF NNames = 1 THEN {"x"} ELSE {"x", "y"}
 Scopes == 1..N
@@ -43,14 +47,15 @@ OKsmall(k, u) ==
     CASE k = "g" -> u \subseteq {"load", "store", "walrus"} /\ ~({"store", "walrus"} \subseteq u)
       [] k = "l" -> u \subseteq {"load"}
       [] OTHER   -> u \subseteq {"load", "store"}
-ValidUses(k) == { f \in [Names -> SUBSET Hows] :
-                    \A n \in Names : IF n = FirstName \/ FullY THEN OKfull(k, f[n]) ELSE OKsmall(k, f[n]) }
+ValidUses(k) == IF Skeleton /\ k = "m" THEN {[n \in Names |-> {}]} ELSE { f \in [Names -> SUBSET Hows] :
+                    \A n \in Names : IF (n = FirstName \/ FullY) /\ ~Skeleton THEN OKfull(k, f[n]) ELSE OKsmall(k, f[n]) }
 
 RECURSIVE SeqProd(_)
 SeqProd(ks) == IF ks = <<>> THEN {<<>>}
                ELSE { <<u>> \o r : u \in ValidUses(Head(ks)), r \in SeqProd(Tail(ks)) }
-Trees    == { p \in [Scopes -> 0..N] : p[1] = 0 /\ \A s \in 2..N : p[s] >= 1 /\ p[s] < s }
-KindSeqs == { k \in [Scopes -> {"m", "f", "c", "g", "l"}] : k[1] = "m" /\ \A s \in 2..N : k[s] # "m" }
+Trees    == IF Skeleton THEN {<<0, 1, 2, 3, 3>>} ELSE { p \in [Scopes -> 0..N] : p[1] = 0 /\ \A s \in 2..N : p[s] >= 1 /\ p[s] < s }
+KindSeqs == IF Skeleton THEN {<<"m", "f", "f", "g", "l">>, <<"m", "f", "f", "g", "g">>, <<"m", "f", "f", "g", "f">>}
+            ELSE { k \in [Scopes -> {"m", "f", "c", "g", "l"}] : k[1] = "m" /\ \A s \in 2..N : k[s] # "m" }
 
 -----------------------------------------------------------------------------
 \* ---------- M : mapper / binder / resolver
@@ -120,6 +125,7 @@ Init ==
     /\ kind \in KindSeqs
     /\ \E us \in SeqProd(kind) : uses = us
     /\ ProgOK
+    /\ (Skeleton => (N = 5 /\ \A n \in Names : uses[1][n] = {}))
     /\ renameLocals \in BOOLEAN /\ renameGlobals \in BOOLEAN /\ tainted \in BOOLEAN
     /\ presL \in {{}, {FirstName}} /\ presG \in {{}, {FirstName}}
     /\ (~AllOptions => (renameLocals /\ renameGlobals /\ ~tainted /\ presL = {} /\ presG = {}))
@@ -175,22 +181,26 @@ Occ == { <<s, n, FALSE>> : s \in Scopes, n \in Names } \cup { <<s, n, TRUE>> : s
 Live(o) == IF o[3] THEN "walrus" \in uses[o[1]][o[2]] ELSE uses[o[1]][o[2]] \ {"walrus"} # {}
 EvalAt(o) == IF o[3] THEN OccScope(par, kind, o[1], "walrus") ELSE o[1]
 OutSp(o) == IF o[3] THEN SpW(o[1], o[2]) ELSE Sp(o[1], o[2])
-InB(o)   == <<PyB(par, kind, uses, Scopes, EvalAt(o), o[2]), o[2]>>
-OutB(o)  == <<PyB(par, kind, OutUses, Scopes, EvalAt(o), OutSp(o)), OutSp(o)>>
-InF(o)   == ~o[3] /\ Fallback(par, kind, uses, Scopes, o[1], o[2])
-OutF(o)  == ~o[3] /\ Fallback(par, kind, OutUses, Scopes, o[1], OutSp(o))
 LiveOcc == { o \in Occ : Live(o) }
 
-\* C03
-SamePartition == \A o1, o2 \in LiveOcc :
-        /\ (InB(o1) = InB(o2)) <=> (OutB(o1) = OutB(o2))
-        /\ (InF(o1) /\ <<<<"G", 0>>, o1[2]>> = InB(o2)) <=> (OutF(o1) /\ <<<<"G", 0>>, OutSp(o1)>> = OutB(o2))
-        /\ InF(o1) <=> OutF(o1)
-SameHome == \A o \in LiveOcc : InB(o)[1] = OutB(o)[1]
-UnboundKept == \A o \in LiveOcc :
-        /\ (InB(o)[1][1] = "G" /\ ~GlobalBound(par, kind, uses, Scopes, o[2])) => OutSp(o) = o[2]
-        /\ (InF(o) /\ ~GlobalBound(par, kind, uses, Scopes, o[2])) => OutSp(o) = o[2]
-NoCapture == pc = "done" => (SamePartition /\ SameHome /\ UnboundKept)
+\* C03, parametrised by the resolution rules in force (PB: binding of an occurrence; FB: class fallback)
+EnvOK(PB(_, _, _, _, _, _), FB(_, _, _, _, _, _)) ==
+    LET InB(o)  == <<PB(par, kind, uses, Scopes, EvalAt(o), o[2]), o[2]>>
+        OutB(o) == <<PB(par, kind, OutUses, Scopes, EvalAt(o), OutSp(o)), OutSp(o)>>
+        InF(o)  == ~o[3] /\ FB(par, kind, uses, Scopes, o[1], o[2])
+        OutF(o) == ~o[3] /\ FB(par, kind, OutUses, Scopes, o[1], OutSp(o))
+    IN /\ \A o1, o2 \in LiveOcc :
+            /\ (InB(o1) = InB(o2)) <=> (OutB(o1) = OutB(o2))
+            /\ (InF(o1) /\ <<<<"G", 0>>, o1[2]>> = InB(o2)) <=> (OutF(o1) /\ <<<<"G", 0>>, OutSp(o1)>> = OutB(o2))
+            /\ InF(o1) <=> OutF(o1)
+       /\ \A o \in LiveOcc : InB(o)[1] = OutB(o)[1]                                            \* same home
+       /\ \A o \in LiveOcc :                                                                   \* never-bound names keep their spelling
+            /\ (InB(o)[1][1] = "G" /\ ~GlobalBound(par, kind, uses, Scopes, o[2])) => OutSp(o) = o[2]
+            /\ (InF(o) /\ ~GlobalBound(par, kind, uses, Scopes, o[2])) => OutSp(o) = o[2]
+\* a violation that exists only under the PEP 709 rule is the known finding D18
+KF_D18 == Pep709 /\ EnvOK(Old!PyB, Old!Fallback)
+NoCapture == pc = "done" => (EnvOK(PyB, Fallback) \/ KF_D18)
+InB(o)   == <<PyB(par, kind, uses, Scopes, EvalAt(o), o[2]), o[2]>>
 StaysCompilable == pc = "done" => Compilable(par, kind, OutUses, Scopes, OutNames)
 
 \* C04: class-scope bindings, parameters and names the module uses but never binds keep their spelling;
